@@ -273,7 +273,7 @@ func zeroValue(t types.Type) Value {
 type unsupportedErr struct{ msg string }
 
 func (u unsupportedErr) Error() string { return "unsupported: " + u.msg }
-func unsupported(msg string) error    { return unsupportedErr{msg} }
+func unsupported(msg string) error     { return unsupportedErr{msg} }
 
 func typeKey(t types.Type) string {
 	if b, ok := t.(*types.Basic); ok && b.Kind() != types.UnsafePointer && b.Kind() < types.UntypedBool {
